@@ -18,6 +18,44 @@
 
 #include <type_traits>
 
+#ifdef XSIMD_VERIF
+// Verification hook (off unless XSIMD_VERIF is defined): counts the iterations of the
+// data-dependent loops of the gamma kernels so that a harness can bound them per call.
+namespace xsimd
+{
+    namespace verif
+    {
+        struct loop_monitor_t
+        {
+            unsigned long count; // iterations since the harness last reset it
+            unsigned long limit; // 0 = unlimited; otherwise the loop is left once count exceeds it
+            unsigned long exceeded; // number of loops cut short
+        };
+        inline loop_monitor_t& loop_monitor() noexcept
+        {
+            static thread_local loop_monitor_t m = { 0, 0, 0 };
+            return m;
+        }
+        inline bool loop_tick() noexcept
+        {
+            loop_monitor_t& m = loop_monitor();
+            ++m.count;
+            if (m.limit && m.count > m.limit)
+            {
+                ++m.exceeded;
+                return true;
+            }
+            return false;
+        }
+    }
+}
+#define XSIMD_VERIF_LOOP_TICK()          \
+    if (::xsimd::verif::loop_tick()) \
+    break
+#else
+#define XSIMD_VERIF_LOOP_TICK()
+#endif
+
 namespace xsimd
 {
 
@@ -1285,6 +1323,7 @@ namespace xsimd
                         // x >= 1.5
                         while (any(xge150 && txgt250))
                         {
+                            XSIMD_VERIF_LOOP_TICK();
                             nx = select(txgt250, nx - batch_type(1.), nx);
                             tx = select(txgt250, x + nx, tx);
                             z = select(txgt250, z * tx, z);
@@ -1324,6 +1363,7 @@ namespace xsimd
                             auto orig = txlt150;
                             while (any(txlt150))
                             {
+                                XSIMD_VERIF_LOOP_TICK();
                                 z = select(txlt150, z * tx, z);
                                 nx = select(txlt150, nx + batch_type(1.), nx);
                                 tx = select(txlt150, x + nx, tx);
@@ -1402,6 +1442,7 @@ namespace xsimd
                         auto test1 = (u >= batch_type(3.));
                         while (any(test1))
                         {
+                            XSIMD_VERIF_LOOP_TICK();
                             p = select(test1, p - batch_type(1.), p);
                             u = select(test1, x + p, u);
                             z = select(test1, z * u, z);
@@ -1411,6 +1452,7 @@ namespace xsimd
                         auto test2 = (u < batch_type(2.));
                         while (any(test2))
                         {
+                            XSIMD_VERIF_LOOP_TICK();
                             z = select(test2, z / u, z);
                             p = select(test2, p + batch_type(1.), p);
                             u = select(test2, x + p, u);
@@ -2463,6 +2505,7 @@ namespace xsimd
                 auto test1 = (x >= B(3.));
                 while (any(test1))
                 {
+                    XSIMD_VERIF_LOOP_TICK();
                     x = select(test1, x - B(1.), x);
                     z = select(test1, z * x, z);
                     test1 = (x >= B(3.));
@@ -2470,6 +2513,7 @@ namespace xsimd
                 test1 = (x < B(0.));
                 while (any(test1))
                 {
+                    XSIMD_VERIF_LOOP_TICK();
                     z = select(test1, z / x, z);
                     x = select(test1, x + B(1.), x);
                     test1 = (x < B(0.));
@@ -2477,6 +2521,7 @@ namespace xsimd
                 auto test2 = (x < B(2.));
                 while (any(test2))
                 {
+                    XSIMD_VERIF_LOOP_TICK();
                     z = select(test2, z / x, z);
                     x = select(test2, x + B(1.), x);
                     test2 = (x < B(2.));
